@@ -230,6 +230,10 @@ func (c *Cluster) opCleanRestart(s *Step) {
 	if n.state() == _state.Shutdown {
 		return
 	}
+	c.drainTasksOf(n)
+	if !n.running() {
+		return
+	}
 	n.knownAtCrash = n.core().KnownEvents()
 	n.lostTxs = append(n.lostTxs, n.pendingPoolSnapshot()...)
 	n.node.Shutdown()
